@@ -66,6 +66,19 @@ with anames_fields (names : list str) (fs : fields) : list (list str) :=
       anames_fields names r
   end.
 
+(* ... and the declared types of those leaves, in the same order *)
+Fixpoint aleaves_ty (t : ty) : list ty :=
+  match t with
+  | TPtr (TStruct fs _) => aleaves_fields fs
+  | _ => [t]
+  end
+with aleaves_fields (fs : fields) : list ty :=
+  match fs with
+  | FNil => []
+  | FCons _ tg _ t r =>
+      aleaves_ty t ++ (if has_alias tags tg then aleaves_ty t else []) ++ aleaves_fields r
+  end.
+
 Lemma anames_fields_cons names n tg an t r :
   anames_fields names (FCons n tg an t r) =
   anames_ty (if an then names else names ++ [n]) t ++
@@ -242,6 +255,7 @@ Definition subA (n : nat) : Prop :=
     translate n [m_a] (TStruct ifs inm) = Ok (tin1, x) ->
     exists ifs1, tin1 = TStruct ifs1 [] /\ wf_fields ifs1 = true /\
       (forall names, names_fields names ifs1 = anames_fields tags names ifs) /\
+      leaves_fields ifs1 = aleaves_fields tags ifs /\
       (forall names, Forall (bound env) (map enc0 (anames_fields tags names ifs)) ->
          reverse n E [m_a] x (tin1, VStruct (build_fields ifs1 (XSv (names_fields names ifs1)))) =
          (vals <- ffs names ifs ;; Ok (TStruct ifs inm, VStruct vals))).
@@ -268,6 +282,7 @@ Lemma one_copy g r ia :
   recurse_out sub_n m_a g = Ok r ->
   wf_sf (fst r) = true /\ sf_name (fst r) = sf_name g /\ sf_anon (fst r) = sf_anon g /\ fst (snd r) = g /\
   (forall names', names_ty names' (sf_ty (fst r)) = anames_ty tags names' (sf_ty g)) /\
+  leaves_ty (sf_ty (fst r)) = aleaves_ty tags (sf_ty g) /\
   (forall names' f', Forall (bound env) (map enc0 (anames_ty tags names' (sf_ty g))) ->
      rec_unmangle_one subrev_n m_a ia (snd r)
        (f', (sf_ty (fst r), build_ty (sf_ty (fst r)) (XSv (names_ty names' (sf_ty (fst r)))))) =
@@ -282,6 +297,8 @@ Proof.
     assert (N : forall names', names_ty names' (sf_ty g) = [names'] /\ anames_ty tags names' (sf_ty g) = [names']).
     { intros names'. destruct (sf_ty g) as [| |e| | | | | | |]; try (split; reflexivity).
       destruct e; try (split; reflexivity). simpl in U. discriminate. }
+    assert (Lf : leaves_ty (sf_ty g) = aleaves_ty tags (sf_ty g)).
+    { destruct (sf_ty g) as [| |e| | | | | | |]; try reflexivity. destruct e; try reflexivity. simpl in U. discriminate. }
     repeat split; auto.
     + intros names'. destruct (N names') as [-> ->]. reflexivity.
     + intros names' f' B. destruct (N names') as [N1 N2]. rewrite N1. rewrite N2 in B. simpl in B.
@@ -293,10 +310,11 @@ Proof.
     destruct (sub_n m_a (TStruct ifs inm)) as [[tin1 x]| |] eqn:Sb; simpl in H; try discriminate.
     inversion H; subst r. clear H. simpl.
     rewrite Eq in S, A. simpl in S, A.
-    destruct (HA ifs inm tin1 x Wf S A Sb) as (ifs1 & E1 & W1 & Nm & Rv). subst tin1.
+    destruct (HA ifs inm tin1 x Wf S A Sb) as (ifs1 & E1 & W1 & Nm & Lf & Rv). subst tin1.
     repeat split; auto.
     + unfold wf_sf. simpl. rewrite Wn, W1. simpl. rewrite Eq in Wa. destruct (sf_anon g); reflexivity.
     + intros names'. rewrite Eq. simpl. apply Nm.
+    + rewrite Eq. simpl. exact Lf.
     + intros names' f' B. rewrite Eq in B |- *. simpl in B. simpl names_ty. cbn [build_ty].
       destruct (spec_nil E env tags) as [_ SN]. destruct (SN ifs Wf S names' B) as [SN1 SN2].
       assert (Xeq : XSv (names_fields names' ifs1) = map (valof env) (map enc0 (anames_fields tags names' ifs)))
@@ -362,12 +380,13 @@ Lemma alias_layer_rev : forall lf lf1 st,
   Forall (fun f => wf_sf f = true) lf -> simple_fields (pack lf) = true -> alias_ok_fields tags (pack lf) = true ->
   Forall (fun g => wf_sf g = true) lf1 /\
   (forall names, concat (map (fun g => names_ty (fnames names g) (sf_ty g)) lf1) = anames_fields tags names (pack lf)) /\
+  concat (map (fun g => leaves_ty (sf_ty g)) lf1) = aleaves_fields tags (pack lf) /\
   (forall names pre, Forall (bound env) (map enc0 (anames_fields tags names (pack lf))) ->
      rev_layer E subrev_n m_a st (pre ++ SEG names lf1) (length pre) =
      (vals <- ffs names (pack lf) ;; Ok (zipv lf vals))).
 Proof.
   induction lf as [|f r IH]; intros lf1 st H W S A; simpl in H.
-  - inversion H; subst. split; [constructor | split; [reflexivity | intros; reflexivity]].
+  - inversion H; subst. split; [constructor | split; [reflexivity | split; [reflexivity | intros; reflexivity]]].
   - apply Forall_cons_iff in W as [Wf Wr]. destruct (wf_sf_parts f Wf) as (Wn & Wt & Wa).
     simpl in S, A. apply andb_true_iff in S as [St Sr].
     apply andb_true_iff in A as [A Ar]. apply andb_true_iff in A as [Aan At].
@@ -376,15 +395,16 @@ Proof.
     destruct (recurse_outs sub_n m_a outs) as [rec| |] eqn:Hr; simpl in H; try discriminate.
     destruct (xlate_layer sub_n m_a r) as [[lfr str]| |] eqn:Hx; simpl in H; try discriminate.
     injection H as El Est. subst lf1 st.
-    destruct (IH lfr str eq_refl Wr Sr Ar) as (I1 & I2 & I3).
+    destruct (IH lfr str eq_refl Wr Sr Ar) as (I1 & I2 & I2' & I3).
     destruct (alias_mangle_cases tags f outs Hm) as [[Al Eo] | [Al (t1 & t2 & Eo)]]; subst outs.
     + (* not aliased *)
       simpl in Hr. destruct (recurse_out sub_n m_a f) as [ra| |] eqn:Ra; simpl in Hr; try discriminate.
       inversion Hr; subst rec. clear Hr.
-      destruct (one_copy f ra (is_array_ty (sf_ty f)) Wf St At Ra) as (C1 & C2 & C3 & C4 & C5 & C6).
+      destruct (one_copy f ra (is_array_ty (sf_ty f)) Wf St At Ra) as (C1 & C2 & C3 & C4 & C5 & C5' & C6).
       assert (Fn : forall names, fnames names (fst ra) = fnames names f) by (intros; unfold fnames; now rewrite C2, C3).
-      split; [constructor; assumption|]. split.
+      split; [constructor; assumption|]. split; [| split].
       * intros names. cbn [app map concat]. rewrite Fn, C5, I2, anames_pack_cons, Al. reflexivity.
+      * cbn [app map concat]. rewrite C5', I2'. cbn [pack aleaves_fields]. rewrite Al. reflexivity.
       * intros names pre B. rewrite anames_pack_cons, Al in B. simpl app in B. rewrite map_app in B.
         apply Forall_app in B as [B1 B2].
         simpl map. unfold SEG. cbn [app map]. fold (SEG names lfr).
@@ -408,16 +428,17 @@ Proof.
       assert (Wp : wf_sf p = true) by (unfold wf_sf, p; simpl; rewrite Wn, Wt; exact Wa).
       assert (Wq : wf_sf a = true).
       { unfold wf_sf, a. simpl. rewrite exported_app by exact Wn. rewrite Wt. exact Wa. }
-      destruct (one_copy p ra (is_array_ty (sf_ty f)) Wp St At Ra) as (P1 & P2 & P3 & P4 & P5 & P6).
-      destruct (one_copy a rb (is_array_ty (sf_ty f)) Wq St At Rb) as (Q1 & Q2 & Q3 & Q4 & Q5 & Q6).
+      destruct (one_copy p ra (is_array_ty (sf_ty f)) Wp St At Ra) as (P1 & P2 & P3 & P4 & P5 & P5' & P6).
+      destruct (one_copy a rb (is_array_ty (sf_ty f)) Wq St At Rb) as (Q1 & Q2 & Q3 & Q4 & Q5 & Q5' & Q6).
       assert (Fp : forall names, fnames names (fst ra) = names ++ [sf_name f]).
       { intros. unfold fnames. rewrite P2, P3. unfold p. simpl. now rewrite An. }
       assert (Fq : forall names, fnames names (fst rb) = names ++ [sf_name f ++ alias_field_suffix]).
       { intros. unfold fnames. rewrite Q2, Q3. unfold a. simpl. now rewrite An. }
       assert (Ff : forall names, fnames names f = names ++ [sf_name f]) by (intros; unfold fnames; now rewrite An).
-      split; [constructor; [assumption | constructor; assumption]|]. split.
+      split; [constructor; [assumption | constructor; assumption]|]. split; [| split].
       * intros names. cbn [app map concat]. rewrite Fp, Fq, P5, Q5, I2, anames_pack_cons, Al, Ff. unfold p, a. cbn [sf_ty].
         reflexivity.
+      * cbn [app map concat]. rewrite P5', Q5', I2'. unfold p, a. cbn [sf_ty pack aleaves_fields]. rewrite Al. reflexivity.
       * intros names pre B. rewrite anames_pack_cons, Al, Ff in B. rewrite !map_app in B.
         apply Forall_app in B as [B1 B]. apply Forall_app in B as [B2 B3].
         unfold SEG. cbn [app map]. fold (SEG names lfr).
@@ -443,6 +464,9 @@ Proof. induction fs as [|n tg an t r IH]; simpl; [reflexivity | now rewrite IH].
 
 Lemma names_fields_pack names lf :
   names_fields names (pack lf) = concat (map (fun g => names_ty (fnames names g) (sf_ty g)) lf).
+Proof. induction lf as [|g r IH]; simpl; [reflexivity | now rewrite IH]. Qed.
+
+Lemma leaves_fields_pack lf : leaves_fields (pack lf) = concat (map (fun g => leaves_ty (sf_ty g)) lf).
 Proof. induction lf as [|g r IH]; simpl; [reflexivity | now rewrite IH]. Qed.
 
 Lemma ffs_length names fs vals : ffs names fs = Ok vals -> length vals = length (unpack fs).
@@ -492,9 +516,10 @@ Proof.
   pose proof (proj1 (wf_fields_forall ifs) W) as Wl.
   assert (S' : simple_fields (pack (unpack ifs)) = true) by (now rewrite pack_unpack).
   assert (A' : alias_ok_fields tags (pack (unpack ifs)) = true) by (now rewrite pack_unpack).
-  destruct (alias_layer_rev n IH (unpack ifs) lf1 st X Wl S' A') as (I1 & I2 & I3).
-  exists (pack lf1). split; [reflexivity|]. split; [now apply wf_fields_pack|]. split.
+  destruct (alias_layer_rev n IH (unpack ifs) lf1 st X Wl S' A') as (I1 & I2 & I2' & I3).
+  exists (pack lf1). split; [reflexivity|]. split; [now apply wf_fields_pack|]. split; [| split].
   - intros names. rewrite names_fields_pack, I2, pack_unpack. reflexivity.
+  - rewrite leaves_fields_pack, I2', pack_unpack. reflexivity.
   - intros names B. cbn [reverse xs_layers xs_ty combine rev_layers]. cbn [obind].
     rewrite SEG_unpack by exact I1.
     rewrite <- (pack_unpack ifs) in B.
@@ -529,7 +554,7 @@ Proof.
   destruct (name_fields_env_of lf2 filled L) as (N1 & N2 & N3 & N4).
   set (seg := combine lf2 (combine (map sf_ty lf2) filled)) in *.
   set (env := env_of seg).
-  destruct (alias_layer_rev E env tags n (subA_all E env tags n) (unpack fs) lf1 st1 X1 Wl S' A') as (I1 & I2 & I3).
+  destruct (alias_layer_rev E env tags n (subA_all E env tags n) (unpack fs) lf1 st1 X1 Wl S' A') as (I1 & I2 & _ & I3).
   destruct (flatten_layer_names _ tag te _ _ _ X2 I1) as [Nm Ty].
   assert (Hn : NoDup (map fst (env_of ([] ++ seg)))).
   { simpl. fold env. unfold env. rewrite <- N1, N4. now apply has_dup_nodup. }
